@@ -29,6 +29,7 @@ type nodeObs struct {
 }
 
 type distStats struct {
+	fam            map[int]map[int]string // node id -> round -> famous witnesses (eids) when the round was first seen decided
 	per            map[int]*nodeObs
 	maxPending     int
 	maxUndet       int
@@ -40,7 +41,7 @@ type distStats struct {
 
 func (h *hist) ds() *distStats {
 	if h.dist == nil {
-		h.dist = &distStats{per: map[int]*nodeObs{}}
+		h.dist = &distStats{per: map[int]*nodeObs{}, fam: map[int]map[int]string{}}
 	}
 	return h.dist
 }
@@ -110,6 +111,19 @@ func peerPubs(a *hx.Node, r int) ([]string, int, bool) {
 // numbers of coin-round votes taken from the middle bit / forced by a super-majority on the way.
 func (h *hist) fameDistance(a *hx.Node, r int, x *hg.Event) (dist int, val bool, coinBit, coinForced int) {
 	votes := map[string]bool{}
+	if h.voteTrace != nil {
+		defer func() {
+			for j := r + 1; j <= a.Store.LastRound(); j++ {
+				line := fmt.Sprintf("round %d:", j)
+				for _, y := range h.roundWitnesses(a, j) {
+					if v, ok := votes[y.Hex()]; ok {
+						line += fmt.Sprintf(" c%d=%v", h.w.Ord(y.Creator()), v)
+					}
+				}
+				*h.voteTrace = append(*h.voteTrace, line)
+			}
+		}()
+	}
 	for j := r + 1; j <= a.Store.LastRound(); j++ {
 		ws := h.roundWitnesses(a, j)
 		_, smj, ok := peerPubs(a, j)
@@ -151,6 +165,9 @@ func (h *hist) fameDistance(a *hx.Node, r int, x *hg.Event) (dist int, val bool,
 			} else if t >= smj {
 				votes[y.Hex()] = v
 				coinForced++
+				if v != hg.VerifMiddleBit(y.Hex()) {
+					h.forcedDiffers++
+				}
 			} else {
 				votes[y.Hex()] = hg.VerifMiddleBit(y.Hex())
 				coinBit++
@@ -158,6 +175,36 @@ func (h *hist) fameDistance(a *hx.Node, r int, x *hg.Event) (dist int, val bool,
 		}
 	}
 	return -1, false, coinBit, coinForced
+}
+
+// famousSets (C01): two nodes that both have decided round r have the same set of famous witnesses for it.
+func (h *hist) famousSets(a *hx.Node, r int, ri *hg.RoundInfo) {
+	d := h.ds()
+	if !ri.VerifDecided() {
+		return
+	}
+	if d.fam[a.ID] == nil {
+		d.fam[a.ID] = map[int]string{}
+	}
+	if _, seen := d.fam[a.ID][r]; seen {
+		return
+	}
+	ids := []int{}
+	for _, f := range ri.FamousWitnesses() {
+		ids = append(ids, h.w.Eid(f))
+	}
+	sort.Ints(ids)
+	mine := fmt.Sprint(ids)
+	d.fam[a.ID][r] = mine
+	h.actions["famous-sets-compared"]++
+	for _, o := range h.nodes {
+		if o == a || o.WasReset {
+			continue
+		}
+		if other, ok := d.fam[o.ID][r]; ok && other != mine {
+			h.w.Violation("C01", "famous-witness-sets-differ", fmt.Sprintf("round=%d node%d=%s node%d=%s", r, a.ID, mine, o.ID, other))
+		}
+	}
 }
 
 func distKey(d int) string {
@@ -210,6 +257,7 @@ func (h *hist) observe(a *hx.Node) {
 		if err != nil {
 			continue
 		}
+		h.famousSets(a, r, ri)
 		open := false
 		for x, re := range ri.CreatedEvents {
 			if !re.Witness {
@@ -230,6 +278,7 @@ func (h *hist) observe(a *hx.Node) {
 			if err != nil {
 				continue
 			}
+			h.forcedDiffers = 0
 			dist, _, cb, cf := h.fameDistance(a, r, ev)
 			h.actions[distKey(dist)]++
 			if dist > d.maxFameDist {
@@ -238,6 +287,7 @@ func (h *hist) observe(a *hx.Node) {
 			if dist > 4 {
 				h.actions["coin-votes-middle-bit"] += cb
 				h.actions["coin-votes-forced"] += cf
+				h.actions["forced-vote-differs-from-coin"] += h.forcedDiffers
 				h.actions["fame-decided-after-coin-round"]++
 			}
 		}
